@@ -202,4 +202,25 @@ def expChunks (doc : Text) (st en : Nat → Nat) (rnd : α → Text) (old new : 
       ((none, dslice doc (bnd st en x) (st x)) :: (old[x]?, dslice doc (st x) (en x)) ::
         expChunks doc st en rnd old new (x + 1) (y + 1) tr)
 
+/-- `expChunks` without its last chunk (the verbatim tail of the document behind the last old item). -/
+def expChunksBody (doc : Text) (st en : Nat → Nat) (rnd : α → Text) (old new : List α) :
+    Nat → Nat → Trace → List (Chunk α)
+  | c, first, [] => segChunks doc st en rnd (slice new first new.length) false c (old.length - c)
+  | c, first, (x, y) :: tr =>
+    segChunks doc st en rnd (slice new first y) false c (x - c) ++
+      ((none, dslice doc (bnd st en x) (st x)) :: (old[x]?, dslice doc (st x) (en x)) ::
+        expChunksBody doc st en rnd old new (x + 1) (y + 1) tr)
+
+/-- Run offset edits and return (output so far, final cursor, rest of the document behind it). -/
+def runTE : Nat → Text → List (Nat × Nat × Text) → Text × Nat × Text
+  | pos, rest, [] => ([], pos, rest)
+  | pos, rest, (s, e, t) :: eds =>
+    let r := runTE e (rest.drop (e - pos)) eds
+    (rest.take (s - pos) ++ t ++ r.1, r.2.1, r.2.2)
+
+/-- What LSP requires of an edit list, in the order it is sent: no reversed range, and every range
+ends before (or where) the next one starts. -/
+def OrderedEdits (es : List (Nat × Nat × Text)) : Prop :=
+  (∀ e ∈ es, e.1 ≤ e.2.1) ∧ es.Pairwise (fun a b => a.2.1 ≤ b.1)
+
 end SamVerif.Differ
